@@ -7,6 +7,7 @@ import (
 	"path/filepath"
 	"sort"
 	"sync"
+	"sync/atomic"
 	"time"
 
 	"github.com/bfenetworks/bfe/bfe_basic"
@@ -686,6 +687,8 @@ func c53Judge(r *vkit.Run, c *c53Case, obs *c53Obs) {
 	}
 }
 
+var c53StormBad int64 // bursts whose counts deviated (incl. deviations listed as known findings)
+
 // c53JudgeStorm judges the concurrent same-key burst and returns the abstract
 // states the sequential probes start from.
 func c53JudgeStorm(r *vkit.Run, c *c53Case, obs *c53Obs, p c53Params) ([]c53St, bool) {
@@ -756,6 +759,7 @@ func c53JudgeStorm(r *vkit.Run, c *c53Case, obs *c53Obs, p c53Params) ([]c53St, 
 		}
 	}
 	if bad {
+		atomic.AddInt64(&c53StormBad, 1)
 		r.Evals(1)
 		return nil, false
 	}
@@ -818,6 +822,18 @@ func c53(r *vkit.Run) {
 			if tgt, err = c53NewHookTarget(c); err != nil {
 				r.Inconclusive("replay: " + err.Error())
 				return
+			}
+		}
+		if c.Kind == "storm" {
+			// the outcome of a concurrent burst depends on the interleaving: the same
+			// burst (without the probes) is repeated on fresh rules until it shows
+			b := *c
+			b.Keys = []c53KeyScript{{Key: c.Keys[0].Key}}
+			for n := 0; n < 4000 && atomic.LoadInt64(&c53StormBad) == 0; n++ {
+				if t, err := c53NewHookTarget(&b); err == nil {
+					c53Judge(r, &b, c53Run(r, &b, t))
+				}
+				r.Count("replay_burst_repetitions", 1)
 			}
 		}
 		c53Judge(r, c, c53Run(r, c, tgt))
